@@ -231,7 +231,7 @@ def line_positions(L, variants_all=True):
     out = []
     n = len(L)
     for i in range(n):
-        for v in range(len(E1_TEXT) if variants_all else 1):
+        for v in (range(len(E1_TEXT)) if variants_all else [1]):   # variant 1 is the nasty text ('End', ';', 'Decay' in the comment)
             out.append(["E1", i, v])
         for v in range(3 if variants_all else 1):
             out.append(["E4", i, v])
@@ -407,6 +407,8 @@ def tasks_single(base_id, variants_all, per_task=40):
     L = split_lines(load_base(base_id))
     pos = line_positions(L, variants_all)
     rws = [({"edits": [e]}, 1) for e in pos]
+    # the file constructor filters physical lines before the grammar sees them: line-level edits also through files
+    rws += [({"edits": [e], "mode": "file"}, 2) for e in pos if e[0] in ("E1", "E3", "E4")]
     rws += [({"mode": m}, 1) for m in ("file", "crlf", "crlf-file", "bom")]
     rws += [({"final_end": v}, 1) for v in range(5)] + [({"final_end": v, "mode": "file"}, 1) for v in range(5)]
     n = len(L)
